@@ -301,6 +301,42 @@ func c11ReleaseJob() Job {
 				}
 			}
 		}
+		// several entries in one request: the outcome is that of posting them one by one (no entry may influence how another
+		// one is understood); all ordered pairs of entry variants
+		type variant struct {
+			name  string
+			entry api.FloatingIP
+		}
+		var all []variant
+		for _, e := range full.Content {
+			all = append(all, variant{"verbatim", e})
+			if e.AppType == "statefulset" {
+				o := e
+				o.AppType = ""
+				all = append(all, variant{"appType-omitted", o})
+			}
+		}
+		dump := func(w *world.World) string {
+			return fmt.Sprint(allocOnly(w.MemDump())) + " store " + fmt.Sprint(w.StoreDump())
+		}
+		for _, v1 := range all {
+			for _, v2 := range all {
+				if v1.entry.IP == v2.entry.IP {
+					continue
+				}
+				wa, _ := c11Build()
+				wa.APIRelease([]api.FloatingIP{v1.entry})
+				wa.APIRelease([]api.FloatingIP{v2.entry})
+				wb, _ := c11Build()
+				code, resp := wb.APIRelease([]api.FloatingIP{v1.entry, v2.entry})
+				r.evals++
+				r.distinct[hashOf("pair", v1.entry.IP, v1.name, v2.entry.IP, v2.name, code, resp.Unreleased)] = true
+				if a, b := dump(wa), dump(wb); a != b {
+					desc := fmt.Sprintf("one request with [%+v (%s), %+v (%s)] -> HTTP %d unreleased=%v reasons=%v", v1.entry, v1.name, v2.entry, v2.name, code, resp.Unreleased, resp.Reason)
+					r.violate("C11", "api/release", "pair", "request-with-two-entries-differs-from-one-by-one", v2.name, fmt.Sprintf("%s: tables %s, one by one %s", desc, b, a), []string{desc})
+				}
+			}
+		}
 		// entries that name an IP with another owner's identity never touch that IP
 		w, allocs := c11Build()
 		for _, x := range allocs {
@@ -330,7 +366,7 @@ func init() {
 		Assume: []string{"names from an 8-element DNS-1123 menu (incl. dotted, dashed, numeric), 7 owner shapes, 4 pool names; one IPAM state containing every key shape (pod keys, reserve keys, pool keys, bare pod, TApp, admin reservation, unallocated)",
 			"the real api.Controller is driven through a go-restful container (HTTP request/response level)"},
 		Rule: "(1) all namespace x pod-name x owner x pool combinations: FormatKey injective over distinct (namespace, pod), ParseKey/NewKeyObj round trip; (2) GET /v1/ip for 12 queries x 4 sort values x 5 page sizes x all pages vs. the unpaged list; " +
-			"(3) every listed entry posted back verbatim (and with appType omitted for statefulset entries) on a fresh replay of the state, plus every (ip, foreign identity) cross pair; distinct/non-trivial = distinct (input, outcome) pairs",
+			"(3) every listed entry posted back verbatim (and with appType omitted for statefulset entries) on a fresh replay of the state, every ordered pair of such entries in one request (== one by one), plus every (ip, foreign identity) cross pair; distinct/non-trivial = distinct (input, outcome) pairs",
 		Jobs: func(tier string) []Job { return []Job{c11KeysJob(), c11ListJob(), c11ReleaseJob()} }})
 	replayers["C11"] = replayDescOnly
 }
